@@ -1128,6 +1128,8 @@ def foreign_volume(rng, ft, quick=True):
         if nfats > 1 and rng.random() < 0.5:
             vol["mirror"] = False
             vol["active"] = rng.randrange(nfats)
+        elif rng.random() < 0.4:
+            vol["stale_active"] = rng.randrange(1, 4)      # mirroring on: the active-FAT nibble is to be ignored
         vol["root_extra_clusters"] = rng.choice([0, 1])
     else:
         vol["rsvd"] = rng.choice([1, 1, 2, 9])
@@ -1286,6 +1288,16 @@ def large_program(rng, pid, kind, hint):
            {"op": "write_all", "h": "f", "pat": 4, "len": cs},
            {"op": "extents", "h": "f"},
            {"op": "close", "h": "f"},
+           {"op": "open_file", "at": "", "path": "big one.dat", "as": "g"},
+           {"op": "seek", "h": "g", "from": "start", "off": 0},
+           {"op": "truncate", "h": "g"},
+           {"op": "write_all", "h": "g", "pat": 11, "len": cs + cs // 2},
+           {"op": "close", "h": "g"},
+           {"op": "open_file", "at": "", "path": "BIG ONE.DAT", "as": "g2"},
+           {"op": "read_all", "h": "g2", "len": 2 * cs},
+           {"op": "extents", "h": "g2"},
+           {"op": "close", "h": "g2"},
+           {"op": "unmount"},
            {"op": "remove", "at": "", "path": "big one.dat"},
            {"op": "stats"},
            {"op": "unmount"},
